@@ -73,6 +73,7 @@ type Sim struct {
 	journal  []string
 	jcap     int
 	stepLog  []string
+	schedPending []string
 	counters map[string]int64
 	occur    map[string]int
 	viol     []Violation
@@ -176,11 +177,38 @@ func (s *Sim) flushStepLog() {
 	}
 }
 
-func (s *Sim) appendJournal(line string) {
+// hashLine folds one line into the canonical journal hash.
+func (s *Sim) hashLine(line string) {
 	h := sha256.New()
 	h.Write(s.jhash[:])
 	h.Write([]byte(line))
 	copy(s.jhash[:], h.Sum(nil))
+}
+
+// flushSched folds the scheduler releases since the last coarse event into
+// the canonical hash as a sorted multiset: between two coarse events the
+// order of sibling operations of one activity (iteration over Go maps) is
+// chosen by the runtime and is not part of the canonical journal.
+func (s *Sim) flushSched() {
+	if len(s.schedPending) == 0 {
+		return
+	}
+	sort.Strings(s.schedPending)
+	for _, l := range s.schedPending {
+		s.hashLine(l)
+	}
+	s.schedPending = s.schedPending[:0]
+}
+
+func (s *Sim) appendJournal(line string) {
+	if strings.HasPrefix(line, "sched: step ") {
+		if i := strings.Index(line, " -> "); i >= 0 {
+			s.schedPending = append(s.schedPending, line[i:])
+		}
+	} else {
+		s.flushSched()
+		s.hashLine(line)
+	}
 	s.jcount++
 	now := time.Duration(0)
 	if !s.plain {
@@ -597,6 +625,7 @@ func Run(t *testing.T, plan *Plan, opt Options, body func(s *Sim)) *Result {
 		s.mu.Unlock()
 		res.Steps = s.step
 		res.SimNanos = int64(s.simElapsed)
+		s.flushSched()
 		res.JournalTail = s.journal
 		res.JournalHash = hex.EncodeToString(s.jhash[:8])
 	}
